@@ -68,7 +68,7 @@ gensalt_sha_rn (char tag, size_t maxsalt, unsigned long defcount,
 
   size_t used_rbytes = 0;
   while (written + 5 <= output_size &&
-         used_rbytes + 3 < nrbytes &&
+         used_rbytes + 3 <= nrbytes &&
          (used_rbytes * 4 / 3) < maxsalt)
     {
       unsigned long value =
